@@ -112,4 +112,16 @@ func parseBasicAuthorizationHeader(hdr *httpheader.HTTPHeader) (cred string, err
   requires hdr != nil
   ensures err == nil <==> hasPrefix(headerGet(ref(hdr.h), "Authorization"), "Basic ")
   ensures err == nil ==> "Basic " ++ cred == headerGet(ref(hdr.h), "Authorization")
+
+// ---- C13 / C11: the kind's constructors (function literals of the package-level kind variable) ----
+// filters.NewSpec unmarshals the user's YAML into what DefaultSpec returns, and every generation of a pipeline
+// gets its filter from CreateInstance: both must hand out an object of their own on every call, and the
+// instance must be bound to exactly the spec it was created for
+func kind.DefaultSpec() (s filters.Spec)
+  flag allocates
+  ensures a-fresh-spec-of-this-kind: typeIs(s, "*Spec") && ifaceVal(s) != 0 && fresh(ptr(ifaceVal(s), "*Spec"))
+func kind.CreateInstance(spec filters.Spec) (f filters.Filter)
+  flag allocates
+  requires typeIs(spec, "*Spec")
+  ensures a-fresh-instance-bound-to-its-spec: typeIs(f, "*Validator") && ifaceVal(f) != 0 && fresh(ptr(ifaceVal(f), "*Validator")) && ref(ptr(ifaceVal(f), "*Validator").spec) == ifaceVal(spec)
 @*/
